@@ -1,2 +1,3 @@
 import SqlcModel.Props.C14
 import SqlcModel.Props.C09
+import SqlcModel.Props.C08
